@@ -8,14 +8,12 @@ NOTE = ("Trusted: Coq 8.16.1 kernel incl. vm_compute (no native_compute), no axi
         "cross-checked by an in-kernel vm_compute sample; the Go correspondence harness. Go function bodies are modelled by hand "
         "(not verified) and tied to /repo by running model and implementation on the same cases on every run. ")
 
-# id -> (level text, technique, extra note, design ref)
-CLAIMS = {
- "C20": ("Theorems over a block-heap model of slices/strings: content, length and pointer preserved, cap = len, and append on the "
-         "result provably allocates a fresh block (never writes the string). Correspondence: real pointers/len/cap of both conversions "
-         "on sub-slices with spare capacity, substrings, nil and empty, and a real append.",
-         "Rocq proof over heap model + differential correspondence (pointer identity)",
-         "Partial: only the go1.21+ file is compiled by the toolchain present; the pre-1.21 variant is modelled, not exercised.", "5 C20"),
-}
+# claims/<ID>.json: {"text": ..., "technique": ..., "note": ..., "design_ref": ...}
+CLAIMS = {}
+for fn in sorted(os.listdir(os.path.join(ROOT, "claims"))):
+    if fn.endswith(".json"):
+        d = json.load(open(os.path.join(ROOT, "claims", fn)))
+        CLAIMS[fn[:-5]] = (d["text"], d["technique"], d.get("note", ""), d.get("design_ref", "5 " + fn[:-5]))
 
 NOT_YET = {}
 
